@@ -7,6 +7,7 @@ from harness.common import run_check, expectation
 from checks.serverfam import *
 from checks.c07 import mk_pool, mk_addr
 from checks import hobl
+from mirsym.models.util import ok, err
 
 
 def mk_atomic_enum(v):
@@ -22,6 +23,100 @@ def mk_client_stats(ip, prog, cid, pool, user, state):
                 transaction_count=Ptr(Cell(Agg([BV(64, 0)], 'Atomic'), 'a')), query_count=Ptr(Cell(Agg([BV(64, 0)], 'Atomic'), 'a')),
                 error_count=Ptr(Cell(Agg([BV(64, 0)], 'Atomic'), 'a')))
     return Agg([vals[n] for n in names], 'ClientStats', list(names))
+
+
+@expectation('c18_cancel_conn')
+def c18_cancel_conn():
+    def f(res):
+        r = res[0]
+        if 'panic' in r or 'error' in r:
+            return ('panic' in r), 'native: %r' % (r,)
+        return (r.get('target_listed_after') is False, 'native: a connected client is %s by SHOW CLIENTS after a CancelRequest naming its process id was served (%r)' %
+                ('no longer listed' if r.get('target_listed_after') is False else 'still listed', r))
+    return f
+
+
+def o3_cancel_conn(chk, prog):
+    """A CancelRequest connection from its construction (the real Client::cancel) through Client::handle in cancel mode to the drop of the Client: it is
+    not a client of any pool and must leave the statistics registry alone -- in particular the entry of the client whose process id it names."""
+    ob = chk.begin('O3-cancel-connection', 'Client::cancel (real constructor) on a request with SYMBOLIC process id and key, then Client::handle in cancel mode '
+                   '(key known or unknown, Server::cancel succeeding or failing) and <Client as Drop>::drop / the entry point\'s disconnect on error: no '
+                   'statistics call (register / disconnect / state change) is made on an entry whose client id is the process id named in the request', {})
+    cancel = fn(prog, 'Client::cancel')
+    handle = fn(prog, 'Client::handle')
+    dr = [f for n, f in prog.funcs.items() if re.search(r'client::<impl at [^>]*>::drop$', n)]
+    if len(dr) != 1:
+        raise Inconclusive('cannot locate <Client as Drop>::drop')
+    ip = chk.interp(prog, 'O3-cancel-connection')
+    base = list(ip.overrides)
+    from harness import wire
+
+    def harness(ip_):
+        ip_.overrides[:] = base
+        touched = []
+
+        def cs_new(c, pid, *a):
+            return Opaque('ClientStats', 'cs', {'id': pid})
+
+        def cs_default(c):
+            return Opaque('ClientStats', 'cs', {'id': BV(32, 0)})
+
+        def cs_call(c, p, *a):
+            v = p
+            for _ in range(4):
+                if isinstance(v, Ptr):
+                    v = deref(c.ip, v)
+            if isinstance(v, Opaque) and v.ty == 'ClientStats':
+                touched.append((c.m.group(1), v.data['id']))
+            t_ = (c.dest_ty or '').strip()
+            return unit() if t_ in ('()', '') else c.ip.fresh_of_type(t_, 'stat')
+        ip_.overrides[:0] = [
+            (re.compile(r'^(?:stats::\w+::)?ClientStats::new$'), cs_new),
+            (re.compile(r'^<(?:stats::\w+::)?ClientStats as (?:std::default::)?Default>::default$'), cs_default),
+            (re.compile(r'^(?:stats::\w+::)?ClientStats::(register|disconnect|idle|active|waiting|transaction|query|checkout_error|checkout_success|ban_error)$'), cs_call),
+            (re.compile(r'^(?:server::)?Server::cancel$'), lambda c, *a: Opaque('HookFuture', 'cancel')),
+        ]
+        install_stats_noops(ip_)
+
+        def poll_hook(ip2, co, ptr):
+            if isinstance(co, Opaque) and co.ty == 'HookFuture' and co.tag == 'cancel':
+                okk = ip2.choose(2, 'cancel_ok') == 1
+                return EnumV(BV(64, 0), {'Ready': [ok(ip2, unit()) if okk else err(ip2, ip2.make_enum('Error', 'SocketError', [rstring('x')]))]}, 'Poll')
+            raise Inconclusive('poll of %r' % (co,))
+        ip_.poll_hook = poll_hook
+        pid, key = ip_.fresh(32, 'req_pid'), ip_.fresh(32, 'req_key')
+        m = MapV('hashmap')
+        if ip_.choose(2, 'key_known') == 1:
+            m.entries.append([Agg([pid, key], 'tuple'), Cell(Agg([BV(32, 777), BV(32, 888), rstring('h'), BV(16, 5432)], 'tuple'), 'v')])
+        csm = Ptr(Cell(Agg([m], 'Lock'), 'csmap'))
+        body = Seq(wire.be_sym(pid, 4) + wire.be_sym(key, 4), 'bytesmut')
+        r = ip_.drive(ip_.call_function(cancel, [StreamV([], 'r'), StreamV([], 'w'), Opaque('SocketAddr', 'addr'), body, csm, Opaque('Receiver', 'shutdown')]))
+        if variant(ip_, r, 'Result') != 'Ok':
+            raise Inconclusive('Client::cancel returned Err')
+        cl = payload(r, 'Ok')[0]
+        cp = Ptr(Cell(cl, 'client'))
+        res = ip_.drive(ip_.call_function(handle, [cp]))
+        if variant(ip_, res, 'Result') == 'Err':
+            # client_entrypoint: `if result.is_err() { client.stats.disconnect() }`
+            st_ = getf(prog, cl, 'Client', 'stats')
+            for _ in range(3):
+                if isinstance(st_, Ptr):
+                    st_ = deref(ip_, st_)
+            if isinstance(st_, Opaque) and st_.ty == 'ClientStats':
+                touched.append(('disconnect', st_.data['id']))
+        ip_.call_function(dr[0], [cp])
+        ob.nontrivial += 1
+        for what, cid in touched:
+            if isinstance(cid, BV) and ip_.model_for(cid.z() != pid.z()) is None:
+                chk.report(ob, 'C18/O3/cancel-connection-touches-target', 'the connection that carries a CancelRequest calls ClientStats::%s on an entry whose id IS the process id '
+                           'named in the request: the target client (still connected) is dropped from SHOW CLIENTS and the pool totals' % what, {},
+                           {'commands': [{'op': 'cancel_conn_stats'}], 'expect': ['c18_cancel_conn']})
+                break
+        if len(ob.samples) < 2:
+            ob.samples.append({'stats_calls': [w for w, _ in touched]})
+    ip.explore(harness)
+    chk.absorb(ob, ip)
+    chk.end(ob)
 
 
 def o1_rollup(chk, prog, cpools, spools):
@@ -137,6 +232,10 @@ def main(chk):
     if chk.thorough:
         tasks += [(prog, (0, 1, 1, 0), (0, 1, 1)), (prog, (2, 2, 0), (2,))]
     chk.parallel(o1_rollup, tasks)
+    try:
+        o3_cancel_conn(chk, prog)
+    except Inconclusive as e:
+        chk.note_inconclusive('O3-cancel-connection: %s' % e)
     hobl.handle_obligations(chk, prog, {'C18'}, ['simple', 'session', 'extended', 'named', 'malformed', 'cuts', 'status', 'copy', 'two-clients', 'timeouts', 'shutdown', 'drops', 'checkout-failures'])
 
 
